@@ -545,6 +545,14 @@ macro_rules! with_dyn_src {
                 let $s = CroppedImage::new(&parent, sp.left, sp.top, sb.w, sb.h).expect("src DynCrop");
                 $body
             }
+            __SK::DynCropMutSrc => {
+                // a mutable cropped view in the source role (over a copy: the backing itself is only borrowed)
+                let mut copy = sb.buf.clone();
+                let bytes = unsafe { std::slice::from_raw_parts_mut(copy.as_mut_ptr() as *mut u8, copy.len() * std::mem::size_of::<$P>()) };
+                let mut parent = Image::from_slice_u8(sp.pw, sp.ph, bytes, <$P as $crate::px::Px>::PT).expect("src dyn parent");
+                let $s = CroppedImageMut::new(&mut parent, sp.left, sp.top, sb.w, sb.h).expect("src DynCropMutSrc");
+                $body
+            }
             _ => {
                 let $s = ImageRef::new(sb.w, sb.h, sb.bytes(), <$P as $crate::px::Px>::PT).expect("src DynRef");
                 $body
